@@ -3,7 +3,7 @@
    non-overlapping copy from other's storage to the end of self's, other's length cut to 0 and
    self's length advanced -- in this order. *)
 From Coq Require Import ZArith List String Bool Lia.
-From MV Require Import Ast Eval Scalar Machine Equiv Prims EquivTac.
+From MV Require Import Ast Eval Scalar Machine EquivDefs Prims EquivTac.
 From MV.Gen Require Import AstGen.
 Import ListNotations.
 Open Scope string_scope.
